@@ -342,6 +342,13 @@ func (d *duplexHTTPCall) makeRequest() {
 	response, err := d.httpClient.Do(d.request)
 	verifYield(d.ctx, "request.done")
 	if err != nil {
+		if ctxErr := d.ctx.Err(); ctxErr != nil {
+			// As in Read and CloseRead: the context's end is why the request
+			// failed, whatever the HTTPClient calls the failure. (net/http's
+			// errors wrap the context's; those of a client that reports failures
+			// in its own words may not.)
+			err = ctxErr
+		}
 		err = wrapIfContextError(err)
 		err = wrapIfLikelyH2CNotConfiguredError(d.request, err)
 		err = wrapIfLikelyWithGRPCNotUsedError(err)
